@@ -510,6 +510,13 @@ class ChainRunningSum(Lemma):
 
 
 UNITS = [FixedDatesDirect(), FixedDatesPreComputation(), JumpTimesDirect(), CoupledJumpTimesPath(), BuildFinerGrid(), MaxStepPath(), ChainRunningSum()]
+def LATE_UNITS():
+    # "fine and coarse components stay aligned": which diffusion coefficient each component of the coupled pair uses after a
+    # level change is the contract of CouplingMarkovChain.next_level (kept with the coupling, c03)
+    from contracts import c03
+    return [c03.NextLevel()]
+
+
 ASSUMPTIONS = ["A1: floats are mathematical reals", "sorted uniform jump times are distinct and strictly inside their interval (almost surely)",
                "array lengths are enumerated (dates <= 3, jumps per interval <= 3, step-cap insertions: gaps < 3 epsilon): complete in the values, bounded in the sizes"]
 TRUSTED_BASE = ["z3 5.1 (NRA for the sqrt(dt) scaling)", "pyvc interpreter + numpy models (concatenate, cumsum, insert, diff, flatnonzero, where)"]
